@@ -29,23 +29,26 @@ Fixpoint inbox (lo hi r : list nat) : bool :=
   | l :: lo', h :: hi', x :: r' => Nat.leb l x && Nat.ltb x h && inbox lo' hi' r'
   | _, _, _ => true
   end.
-Definition gfun (box : option (list nat * list nat)) (a b : list Z) (p : Z) (r : list nat) : float :=
+Definition gfun1 (box : option (list nat * list nat)) (a b : list Z) (p : Z) (r : list nat) : float :=
   match box with
   | Some (lo, hi) => if inbox lo hi r then gfun0 a b p r else F_ofZ 0
   | None => gfun0 a b p r
   end.
+(* sc is a power of two (exact rescaling of the objective) *)
+Definition gfun (sc : float) (box : option (list nat * list nat)) (a b : list Z) (p : Z) (r : list nat) : float :=
+  PrimFloat.mul (gfun1 box a b p r) sc.
 Definition fl (x : float) : list Z := let (m, e) := F_show x in [m; e].
 Definition oflt (o : option float) : option float := o.
 Definition run_case (sh : list (nat * nat * nat)) (m : option nat) (e : option float) (nswp : option nat)
     (evld : option float) (hasI hasy : bool) (drmin drmax scale : nat) (cache : option (list (list nat * float)))
     (kNone : option nat) (kcb : option (option nat)) (picks : list (list nat)) (er ac ad : list float)
-    (a b : list Z) (p : Z) (box : option (list nat * list nat)) (fuel : nat) : list (list (list Z)) :=
+    (a b : list Z) (p : Z) (box : option (list nat * list nat)) (sc : float) (fuel : nat) : list (list (list Z)) :=
   let Y0 := map (fun s => match s with (r1, n, r2) => mkc r1 n r2 tt end) sh in
   let cf := mkcfg Y0 m e nswp evld hasI hasy drmin drmax scale cache in
   let f := fun (k : nat) (I : rows) =>
      match kNone with
-     | Some k0 => if Nat.eqb k k0 then None else Some (map (gfun box a b p) I)
-     | None => Some (map (gfun box a b p) I) end in
+     | Some k0 => if Nat.eqb k k0 then None else Some (map (gfun sc box a b p) I)
+     | None => Some (map (gfun sc box a b p) I) end in
   let cb := match kcb with None => None
             | Some None => Some (fun _ : nat => false)
             | Some (Some s0) => Some (fun s : nat => Nat.eqb s s0) end in
@@ -100,6 +103,8 @@ def objective(cfg, I):
     if box is not None:
         lo, hi = np.array(box[0], dtype=np.int64), np.array(box[1], dtype=np.int64)
         y = np.where(((I >= lo) & (I < hi)).all(axis=1), y, 0.0)
+    if cfg.get('sc2'):
+        y = y * 2.0 ** int(cfg['sc2'])
     return y
 
 
@@ -109,12 +114,42 @@ class TooLong(Exception):
 
 
 def make_Y0(cfg):
+    """initial tensor; cfg['forms']['Y0'] selects the representation of the SAME values:
+    list (canonical) | tuple | F (Fortran-ordered cores) | noncontig (strided views) | int (int64 cores; the values
+    are then small integers for every representation of that configuration, cfg['forms']['Y0int'] = True)"""
     rng = np.random.default_rng(cfg['seedY'])
     ns, r0 = cfg['ns'], cfg['r0']
-    return [rng.normal(size=(r0[k], ns[k], r0[k + 1])) for k in range(len(ns))]
+    fm = cfg.get('forms') or {}
+    Y = [rng.normal(size=(r0[k], ns[k], r0[k + 1])) for k in range(len(ns))]
+    if fm.get('Y0int') or fm.get('Y0') == 'int':
+        Y = [np.rint(3 * G) + (np.abs(np.rint(3 * G)).sum() == 0) for G in Y]       # integer valued, not all zero
+    if cfg.get('sc2Y'):
+        Y = [G * 2.0 ** int(cfg['sc2Y']) for G in Y]
+    form = fm.get('Y0', 'list')
+    if form == 'F':
+        Y = [np.asfortranarray(G) for G in Y]
+    elif form == 'noncontig':
+        Z = []
+        for G in Y:
+            B = np.zeros((G.shape[0], 2 * G.shape[1], G.shape[2]))
+            B[:, ::2, :] = G
+            Z.append(B[:, ::2, :])
+        Y = Z
+    elif form == 'int':
+        Y = [G.astype(np.int64) for G in Y]
+    elif form == 'tuple':
+        Y = tuple(Y)
+    return Y
 
 
-def run_impl(tn, cfg, objective=None, Y0=None, max_calls=4000, max_requests=6000, max_seconds=60.0):
+M_FORMS = {'int': int, 'float': float, 'np.int64': np.int64, 'np.int32': np.int32, 'np.float64': np.float64}
+RET_FORMS = {'array': lambda y: y, 'list': lambda y: [float(v) for v in y], 'tuple': lambda y: tuple(float(v) for v in y),
+             'float32': lambda y: y.astype(np.float32), 'int': lambda y: y.astype(np.int64),
+             'col': lambda y: y.reshape(-1, 1)}
+CB_FORMS = {'True': lambda b: bool(b), '1': lambda b: 1 if b else 0, 'np.bool_': lambda b: np.bool_(b)}
+
+
+def run_impl(tn, cfg, objective=None, Y0=None, max_calls=4000, max_requests=6000, max_seconds=60.0, shared=None):
     """Run teneva.cross on the configuration with recorders installed.  Returns a dict with everything observed.
     cfg keys: ns r0 seedY m e nswp e_vld hasI hasy dr_min dr_max scale cache(None|list of (idx, val)) kNone kcb
     (None = no callback, -1 = callback never true, s = true at sweep s) a b p box.
@@ -123,7 +158,10 @@ def run_impl(tn, cfg, objective=None, Y0=None, max_calls=4000, max_requests=6000
     of wall time raise TooLong out of cross.  Every generated configuration has a criterion that must fire (nswp, a
     finite budget m - with a cache through the conv rule -, ...), so callers treat TooLong as "run did not stop"."""
     import time as _time
+    import inspect
     t_start = _time.time()
+    fm = cfg.get('forms') or {}
+    shared = shared or {}
     cr = sys.modules['teneva.cross']
     rec = dict(picks=[], er=[], ac=[], ad=[], batches=[], requests=[], mv_args=[])
     saved = dict(_maxvol=tn._maxvol, erank=tn.erank, accuracy=tn.accuracy, accuracy_on_data=tn.accuracy_on_data,
@@ -172,22 +210,31 @@ def run_impl(tn, cfg, objective=None, Y0=None, max_calls=4000, max_requests=6000
         ncall[0] += 1
         if k > max_calls:
             raise TooLong()
-        I = np.asarray(I)
         none = cfg.get('kNone') is not None and k == cfg['kNone']
-        rec['batches'].append(dict(I=I, ok=not none))
+        rec['batches'].append(dict(I=np.array(I, copy=True), ok=not none, type=type(I).__name__))
         if none:
             return None
-        return g(I)
+        y = RET_FORMS[fm.get('ret', 'array')](np.asarray(g(np.array(I, copy=True)), dtype=float))
+        if fm.get('mutate') and isinstance(I, np.ndarray) and I.flags.writeable:
+            I[...] = 0 if fm['mutate'] == 'zero' else I + 1      # the objective scribbles on the batch it was handed
+        return y
 
     kcb = cfg.get('kcb')
     cbrec = []
 
     def cb(Y, info, opts):
         cbrec.append(info['nswp'])
-        return bool(info['nswp'] == kcb)
+        return CB_FORMS[fm.get('cb', 'True')](info['nswp'] == kcb)
 
-    info = {}
-    cache = None if cfg['cache'] is None else {tuple(i): float(v) for i, v in cfg['cache']}
+    info_omitted = fm.get('info') == 'omitted'
+    if info_omitted:
+        info = inspect.signature(tn.cross).parameters['info'].default      # the module-level default dict
+    else:
+        info = shared['info'] if 'info' in shared else {}
+    if 'cache' in shared:
+        cache = shared['cache']
+    else:
+        cache = None if cfg['cache'] is None else {tuple(i): float(v) for i, v in cfg['cache']}
     cache0 = None if cache is None else dict(cache)
     d = len(cfg['ns'])
     if Y0 is None:
@@ -196,6 +243,27 @@ def run_impl(tn, cfg, objective=None, Y0=None, max_calls=4000, max_requests=6000
     I_vld = np.array([[int(rngv.integers(0, n)) for n in cfg['ns']] for _ in range(7)]) if cfg['hasI'] else None
     y_vld = g(np.array([[int(rngv.integers(0, n)) for n in cfg['ns']] for _ in range(7)]) if I_vld is None else I_vld) \
         if cfg['hasy'] else None
+    vf = fm.get('vld', 'array')
+    if vf == 'list':
+        I_vld = None if I_vld is None else I_vld.tolist()
+        y_vld = None if y_vld is None else [float(v) for v in y_vld]
+    elif vf == 'int32':
+        I_vld = None if I_vld is None else I_vld.astype(np.int32)
+    conv_m = M_FORMS[fm.get('m', 'int')]
+    nps = bool(fm.get('np_scalars'))
+    a_m = None if cfg['m'] is None else conv_m(cfg['m'])
+    a_nswp = cfg['nswp'] if (cfg['nswp'] is None or not nps) else np.int64(cfg['nswp'])
+    a_e = cfg['e'] if (cfg['e'] is None or not nps) else np.float64(cfg['e'])
+    a_evld = cfg['e_vld'] if (cfg['e_vld'] is None or not nps) else np.float64(cfg['e_vld'])
+    a_drmin, a_drmax = (np.int64(cfg['dr_min']), np.int64(cfg['dr_max'])) if nps else (cfg['dr_min'], cfg['dr_max'])
+    kw = dict(m=a_m, e=a_e, nswp=a_nswp, dr_min=a_drmin, dr_max=a_drmax, I_vld=I_vld, y_vld=y_vld, e_vld=a_evld,
+              cb=(cb if kcb is not None else None), m_cache_scale=(np.int64(cfg['scale']) if nps else cfg['scale']))
+    if nps:
+        kw['k0'] = np.int64(100)
+    if not info_omitted:
+        kw['info'] = info
+    if cache is not None or fm.get('cache') != 'omitted':
+        kw['cache'] = cache
     out = dict(rec=rec, info=info, cache=cache, cache0=cache0, Y0=Y0, cbrec=cbrec, I_vld=I_vld, y_vld=y_vld)
     tn._maxvol, tn.erank, tn.accuracy, tn.accuracy_on_data = w_maxvol, w_erank, w_acc, w_ad
     cr._func_eval = w_fe
@@ -203,10 +271,7 @@ def run_impl(tn, cfg, objective=None, Y0=None, max_calls=4000, max_requests=6000
         with warnings.catch_warnings():
             warnings.simplefilter('ignore')
             with np.errstate(all='ignore'):
-                Y = tn.cross(f, Y0, m=cfg['m'], e=cfg['e'], nswp=cfg['nswp'], dr_min=cfg['dr_min'],
-                             dr_max=cfg['dr_max'], info=info, cache=cache, I_vld=I_vld, y_vld=y_vld,
-                             e_vld=cfg['e_vld'], cb=(cb if kcb is not None else None),
-                             m_cache_scale=cfg['scale'])
+                Y = tn.cross(f, Y0, **kw)
         out['Y'] = Y
         out['exc'] = None
     except TooLong as e:
@@ -221,6 +286,8 @@ def run_impl(tn, cfg, objective=None, Y0=None, max_calls=4000, max_requests=6000
                                                                    saved['accuracy'], saved['accuracy_on_data'])
         cr._func_eval = saved['_func_eval']
     out['ncall'] = ncall[0]
+    if info_omitted:
+        out['info'] = dict(info)        # snapshot: the shared default dict is overwritten by the next call
     return out
 
 
@@ -263,7 +330,8 @@ def coq_term(cfg, o, fuel=None):
             f"{nat(cfg['dr_min'])} {nat(cfg['dr_max'])} {nat(cfg['scale'])} {cache} {opt(cfg.get('kNone'), nat)} {kcbs} "
             f"{picks} {fl(rec['er'])} {fl([float('nan')] + rec['ac'])} {fl(rec['ad'])} "
             f"{C.zlist(cfg['a'])} {C.zlist(cfg['b'])} {int(cfg['p'])} "
-            f"{opt(cfg.get('box'), lambda bx: '(' + natl(bx[0]) + ', ' + natl(bx[1]) + ')')} {nat(fuel)}")
+            f"{opt(cfg.get('box'), lambda bx: '(' + natl(bx[0]) + ', ' + natl(bx[1]) + ')')} "
+            f"{flit(2.0 ** int(cfg.get('sc2') or 0))} {nat(fuel)}")
 
 
 def impl_result(cfg, o):
@@ -413,4 +481,4 @@ def gen_prio(rng):
 
 def describe(cfg):
     return {k: cfg[k] for k in ('ns', 'r0', 'seedY', 'm', 'e', 'nswp', 'e_vld', 'hasI', 'hasy', 'dr_min', 'dr_max',
-                                'scale', 'cache', 'kNone', 'kcb', 'a', 'b', 'p')} | {'box': cfg.get('box')}
+                                'scale', 'cache', 'kNone', 'kcb', 'a', 'b', 'p')} | {'box': cfg.get('box'), 'sc2': cfg.get('sc2'), 'forms': cfg.get('forms')}
